@@ -74,3 +74,60 @@ Proof. vm_compute. reflexivity. Qed.
 Example C13_nomarkup_by_name :
   show (parse_markup (STR "[nomarkup][b]x[/b][/nomarkup] y")) = Some (STR "[b]x[/b] y", [(STR "nomarkup", 0, 8)]%Z).
 Proof. vm_compute. reflexivity. Qed.
+
+(* ---- markers with properties (Proofs/MarkupPropsProofs.v) ----
+   The round trip above, generalised: an open marker carries properties.  Written forms:
+   [name k=v k=v ...] and the shorthand [name=v k=v ...] (one blank between properties), values being
+   decimal integers below 2^63, true / false, quoted strings without quote or backslash, bare words.
+   [open_plain] / [open_short] are such markers as document items; the enclosure specification carries
+   the written properties of every marker; the theorem: parsing returns the text, one attribute per
+   closed marker with its name, with exactly the typed properties written on its open marker (as the
+   property map of the attribute: a later value of a key replaces an earlier one) and the range of the
+   text it enclosed.  Excluded by hypothesis: a property named trimwhitespace (it changes the text).
+   Still outside: decimal values (p=1.05: strconv.ParseFloat on the text), self-closing and replacement
+   markers, the character prefix, edge blanks - family markupdoc. *)
+Require YS.Proofs.MarkupPropsProofs.
+Module P := YS.Proofs.MarkupPropsProofs.
+
+Theorem C13_document_with_properties_roundtrip : forall its,
+  Forall P.item_ok its ->
+  forallb (fun c => negb (N.eqb c 58)) (P.text its) = true ->
+  P.no_edge_space (P.text its) ->
+  match P.enclosed its [] [] with
+  | Some encl =>
+      exists attrs, parse_markup (P.render its) = Some (P.text its, attrs) /\
+        length attrs = length encl /\
+        (forall e, In e encl -> exists a, In a attrs /\ aname a = P.ename e /\ aprops a = props_map (P.eprops e) /\
+                                          text_for_attribute (P.text its) a = Some (snd e)) /\
+        (forall a, In a attrs -> exists e, In e encl /\ aname a = P.ename e /\ aprops a = props_map (P.eprops e) /\
+                                           text_for_attribute (P.text its) a = Some (snd e))
+  | None => parse_markup (P.render its) = None
+  end.
+Proof. exact P.markup_document_roundtrip. Qed.
+Print Assumptions C13_document_with_properties_roundtrip.
+
+(* the written forms meet the theorem's hypothesis on items *)
+Theorem C13_written_properties_are_read : forall n ps, P.name_ok n -> Forall P.prop_ok ps ->
+  get_prop (P.pvalues ps) (STR "trimwhitespace") = None -> P.item_ok (P.open_plain n ps).
+Proof. exact P.open_plain_ok. Qed.
+Theorem C13_shorthand_property_is_read : forall n v ps, P.name_ok n -> P.pv_ok v -> Forall P.prop_ok ps ->
+  get_prop ((n, P.pv_value v) :: P.pvalues ps) (STR "trimwhitespace") = None -> P.item_ok (P.open_short n v ps).
+Proof. exact P.open_short_ok. Qed.
+Print Assumptions C13_written_properties_are_read.
+
+(* non-vacuity: [wave=3 loud=true who="Zoé" kind=big]x[b n=12]y[/wave]z[/b] - the written values come
+   back typed, on the right ranges *)
+Definition ex_pdoc : list P.item :=
+  [P.open_short (STR "wave") (P.PVInt (STR "3")) [(STR "loud", P.PVBool true); (STR "who", P.PVQuoted [90; 111; 233]%N); (STR "kind", P.PVBare (STR "big"))];
+   P.IText (STR "x"); P.open_plain (STR "b") [(STR "n", P.PVInt (STR "12"))]; P.IText (STR "y");
+   P.IClose (STR "wave"); P.IText (STR "z"); P.IClose (STR "b")].
+Example C13_properties_example :
+  parse_markup (P.render ex_pdoc) =
+  Some (STR "xyz",
+        [{| aname := STR "wave"; apos := 0; alen := 2; asrc := 0;
+            aprops := [(STR "wave", MInt 3); (STR "loud", MBool true); (STR "who", MStr [90; 111; 233]%N); (STR "kind", MStr (STR "big"))] |};
+         {| aname := STR "b"; apos := 1; alen := 2; asrc := 38; aprops := [(STR "n", MInt 12)] |}]%Z)
+  /\ P.enclosed ex_pdoc [] [] =
+     Some [(STR "wave", [(STR "wave", MInt 3); (STR "loud", MBool true); (STR "who", MStr [90; 111; 233]%N); (STR "kind", MStr (STR "big"))], STR "xy");
+           (STR "b", [(STR "n", MInt 12)], STR "yz")]%Z.
+Proof. split; vm_compute; reflexivity. Qed.
